@@ -2,6 +2,8 @@
 C09 — Cache reuse: cached results are never re-executed; after a cacheable evaluation the key is present.
 Theorems over LiquerModel/Eval.lean and LiquerModel/Ref.lean; helper lemmas in LiquerProofs/Lemmas/Eval*.lean.
 `Sound`, `Closed`, `CanonOK`: see the header of Props/C01.lean.
+The text hypothesis `CanonOK` is discharged by C02's round trip for every class of `wfTop` queries: the `_wf`
+corollaries (last section).
 -/
 import LiquerModel.Ref
 import LiquerProofs.Inst.Vocab
@@ -10,6 +12,7 @@ import LiquerProofs.Lemmas.EvalExact
 import LiquerProofs.Lemmas.EvalExample
 import LiquerProofs.Lemmas.EvalReuse
 import LiquerProofs.Lemmas.EvalSuffix
+import LiquerProofs.Lemmas.EvalCanon
 
 namespace Liquer.C09
 
@@ -188,6 +191,65 @@ example :
       r.1.calls ++ [s "root.add(I1;I2)", s "root.add(I3;I1)"] := by
   decide +kernel
 
+/-! ### the canonical-text hypothesis discharged: closed classes of well-formed queries (C02's round trip) -/
+
+/-- every well-formed query of the class means what its canonical text means (Lemmas/EvalCanon.lean) -/
+theorem canon_of_wf {env : Env} (hd : DecOK env.dec) {C : Query → Prop}
+    (hwf : ∀ q, C q → wfTop Gen.escapeTable q = true) : ∀ q, C q → CanonOK env q :=
+  fun q hq => CanonOK.of_same (Canon.canonSame_of_wf env hd q (hwf q hq))
+
+/-- `reuse_subsequence` for a closed class of well-formed queries -/
+theorem reuse_subsequence_wf {env : Env} (hd : DecOK env.dec) {C : Query → Prop} {T : Str → Prop}
+    (hC : Closed env C T) (hwf : ∀ q, C q → wfTop Gen.escapeTable q = true) (n : Nat) (w : World) (q : Query)
+    (raw : Str) (hS : Sound env w) (hCq : C q)
+    (hne : (evalQ env n w q raw .none none true).2 ≠ .unmodelled) :
+    ∃ m c', (evalQ env n w q raw .none none true).1.calls = w.calls ++ c' ∧
+      c'.Sublist (refQ env m q raw .none none).2 ∧
+      Outcome.sim (evalQ env n w q raw .none none true).2 (refQ env m q raw .none none).1 :=
+  reuse_subsequence hC (canon_of_wf hd hwf) n w q raw hS hCq hne
+
+/-- `extension_runs_last_step_links` for a closed class of well-formed queries -/
+theorem extension_runs_last_step_links_wf {env : Env} (hd : DecOK env.dec) {C : Query → Prop} {T : Str → Prop}
+    (hC : Closed env C T) (hwf : ∀ q, C q → wfTop Gen.escapeTable q = true) (n m : Nat) (w w' : World) (p q : Query)
+    (h : Option Header) (a : Action) (raw : Str) (st : EState) (hen : w.enabled = true) (hS' : Sound env w')
+    (hCq : C q)
+    (h1 : evalQ env (n+1) w p (p.encode Gen.escapeTable) .none none true = (w', .st st))
+    (hc : st.caching = true) (he : st.isError = false) (hv : st.volatile = false) (hstep : p.hasStep = true)
+    (hq : q.predecessor = some (p, some (.transform h [a] none))) (hpe : p.segments.isEmpty = false)
+    (hraw : raw ≠ p.encode Gen.escapeTable)
+    (hmiss : w'.get (q.encode Gen.escapeTable) = none)
+    (hne : (evalQ env (m+2) w' q raw .none none true).2 ≠ .unmodelled) :
+    ∃ m' c', (evalQ env (m+2) w' q raw .none none true).1.calls = w'.calls ++ c' ∧
+      c'.Sublist (refAction env m' st a raw (p.encode Gen.escapeTable) .none).2 :=
+  extension_runs_last_step_links hC (canon_of_wf hd hwf) n m w w' p q h a raw st hen hS' hCq h1 hc he hv hstep hq hpe
+    hraw hmiss hne
+
+/-- `extension_runs_suffix_closed` for a closed class of well-formed queries -/
+theorem extension_runs_suffix_closed_wf {env : Env} (hd : DecOK env.dec) {C : Query → Prop} {T : Str → Prop}
+    (hC : Closed env C T) (hwf : ∀ q, C q → wfTop Gen.escapeTable q = true) (n m k : Nat) (w w' : World)
+    (p q : Query) (st : EState) (c0 c : List Str) (o : Outcome) (hen : w.enabled = true) (hS : Sound env w)
+    (hCq : C q)
+    (h1 : evalQ env (n+1) w p (p.encode Gen.escapeTable) .none none true = (w', .st st))
+    (hc : st.caching = true) (he : st.isError = false) (hv : st.volatile = false) (hstep : p.hasStep = true)
+    (hch : ChainOff p q k)
+    (hp : refQ env m p (p.encode Gen.escapeTable) .none none = (.st st, c0))
+    (hq : refQ env (m+k) q (q.encode Gen.escapeTable) .none none = (o, c)) (ho : o ≠ .unmodelled) :
+    ∃ c', (evalQ env (m+k+1) w' q (q.encode Gen.escapeTable) .none none true).1.calls = w'.calls ++ c' ∧
+      c'.Sublist (c.drop c0.length) :=
+  extension_runs_suffix_closed hC (canon_of_wf hd hwf) n m k w w' p q st c0 c o hen hS hCq h1 hc he hv hstep hch hp hq
+    ho
+
+-- non-vacuity of the `_wf` hypotheses: the decoder of the example environment is a decoder; the example families
+-- `C0` (contains a link argument) and `C1` (the two-step chain over `one`) are closed and consist of well-formed queries
+open Ex in
+example : DecOK env0.dec ∧ Closed env0 C0 T0 ∧ (∀ q, C0 q → wfTop Gen.escapeTable q = true) ∧ C0 qOneAdd :=
+  ⟨decUtf8_ok, closed0, by intro q hq; rcases hq with rfl | rfl | rfl | rfl <;> decide +kernel, Or.inr (Or.inl rfl)⟩
+open Ex in
+example : DecOK env0.dec ∧ Closed env0 C1 T0 ∧ (∀ q, C1 q → wfTop Gen.escapeTable q = true) ∧ Sound env0 {} ∧
+    C1 qOneAddAdd ∧ ChainOff qOne qOneAddAdd 2 :=
+  ⟨decUtf8_ok, closed1, by intro q hq; rcases hq with rfl | rfl | rfl <;> decide +kernel, Sound.empty _, Or.inl rfl,
+    chainOff2⟩
+
 end Liquer.C09
 
--- OBLIGATIONS: Liquer.C09.inst_registry Liquer.C09.hit Liquer.C09.present_after Liquer.C09.second_run_silent Liquer.C09.reuse_subsequence Liquer.C09.enabled_invariant Liquer.C09.extension_runs_last_step Liquer.C09.extension_runs_last_step_links Liquer.C09.extension_runs_suffix_closed Liquer.C09.extension_runs_suffix
+-- OBLIGATIONS: Liquer.C09.inst_registry Liquer.C09.hit Liquer.C09.present_after Liquer.C09.second_run_silent Liquer.C09.reuse_subsequence Liquer.C09.enabled_invariant Liquer.C09.extension_runs_last_step Liquer.C09.extension_runs_last_step_links Liquer.C09.extension_runs_suffix_closed Liquer.C09.extension_runs_suffix Liquer.C09.canon_of_wf Liquer.C09.reuse_subsequence_wf Liquer.C09.extension_runs_last_step_links_wf Liquer.C09.extension_runs_suffix_closed_wf
